@@ -29,6 +29,9 @@ const (
 	vf12S2Secret = "secret-two"
 	vf12P1       = "publicOne"
 	vf12P2       = "publicTwo"
+	vf12SA       = "confidentialAud"
+	vf12SASecret = "secret-aud"
+	vf12PA       = "publicAud"
 	vf12Redirect = "https://app.localhost/cb"
 	vf12Verifier = "verifier-0123456789-abcdefghijklmnopqrstuvwxyz-ABCDEFG"
 	vf12Wrong    = "wrong-verifier-0123456789-abcdefghijklmnopqrstuvwxyz-AB"
@@ -47,6 +50,8 @@ func vf12Secret(client string) string {
 		return vf12S1Secret
 	case vf12S2:
 		return vf12S2Secret
+	case vf12SA:
+		return vf12SASecret
 	}
 	return ""
 }
@@ -175,6 +180,191 @@ func (e *vf4Env) vf12Userinfo(tok string) string {
 	return "ok:" + vfHex(ui.Subject)
 }
 
+// vf12Redeem presents a code to the real token endpoint and, on release, verifies the tokens against
+// the JWKS handler's keys and feeds them to the real userinfo handler.
+func (e *vf4Env) vf12Redeem(code string, payload []byte, by, prot, client, secret, verifier, redirect, place string) (string, error) {
+	st := e.state
+	form := url.Values{}
+	form.Set("grant_type", "authorization_code")
+	form.Set("redirect_uri", redirect)
+	form.Set("code", code)
+	if verifier != "" {
+		form.Set("code_verifier", verifier)
+	}
+	basic, formID, formSecret := "-", "", ""
+	if place == "form" {
+		formID, formSecret = client, secret
+		if client != "" {
+			form.Set("client_id", client)
+		}
+		if secret != "" {
+			form.Set("client_secret", secret)
+		}
+	}
+	r := httptest.NewRequest("POST", idpOpenIDCTokenPath, strings.NewReader(form.Encode()))
+	r.Header.Set("Content-Type", "application/x-www-form-urlencoded")
+	if place == "header" {
+		r.SetBasicAuth(client, secret)
+		basic = vfHex(client) + ":" + vfHex(secret)
+	}
+	now := time.Now().Unix()
+	rr, p := vfServe(st.idpOpenIDCTokenHandler, r)
+	if p != nil {
+		return "", fmt.Errorf("token handler panicked: %v", p)
+	}
+	body := rr.Body.String()
+	class := "other"
+	switch {
+	case rr.Code == 200:
+		class = "released"
+	case rr.Code == 400 && strings.Contains(body, "bad code"):
+		class = "badCode"
+	case rr.Code == 400 && strings.Contains(body, "ClientID uknown"):
+		class = "unknownClient"
+	case rr.Code == 400 && strings.Contains(body, "Invalid grant type"):
+		class = "grant"
+	case rr.Code == 400 && strings.Contains(body, "Invalid redirect uri"):
+		class = "noRedirect"
+	case rr.Code == 401 && strings.Contains(body, "Missing client_id"):
+		class = "noClientID"
+	case rr.Code == 401 && strings.Contains(body, "Client Cannot use PKCE"):
+		class = "pkceNotAllowed"
+	case rr.Code == 401:
+		class = "denied"
+	}
+	out := fmt.Sprintf("%d %s | now=%d by=%s prot=%s verifier=%s s256=%s basic=%s formid=%s formsecret=%s redirect=%s wire=%s",
+		rr.Code, class, now, by, prot, vfHex(verifier), vfHex(vf12S256(verifier)), basic, vfHex(formID), vfHex(formSecret),
+		vfHex(redirect), hex.EncodeToString(payload))
+	if rr.Code == 200 {
+		var resp tokenResponse
+		if err := json.Unmarshal(rr.Body.Bytes(), &resp); err != nil {
+			return "", err
+		}
+		idp, _ := vf4Payload(resp.IDToken)
+		acp, _ := vf4Payload(resp.AccessToken)
+		out += fmt.Sprintf(" idt=%s acc=%s jwks=%s ui=%s uiid=%s uicode=%s ttype=%s expin=%d", hex.EncodeToString(idp), hex.EncodeToString(acp),
+			vfBool(e.vf12JWKSVerifies(resp.IDToken, resp.AccessToken)), e.vf12Userinfo(resp.AccessToken),
+			e.vf12Userinfo(resp.IDToken), e.vf12Userinfo(code), vfHex(resp.TokenType), resp.ExpiresIn)
+	} else if vf4CountJWS(body) > 0 {
+		out += " LEAK"
+	}
+	return out, nil
+}
+
+var vf12AzMessages = []struct{ msg, class string }{
+	{"Unsupported or Missing response_type", "responseType"}, {"Empty cleint_id", "noClient"},
+	{"Invalid scope value", "scope"}, {"ClientID uknown", "unknownClient"}, {"redirect string not valid", "redirect"},
+	{"challenge method is invalid", "challengeMethod"}, {"Invalid audience", "audience"}, {"bad Nonce value", "nonce"},
+	{"Invalid URL", "badURL"},
+}
+
+// vf12Az drives one complete flow through the REAL authorization endpoint with the optional
+// parameters of the op, then redeems the code with the client's own credentials.
+//
+//	az <client> <audienceHex> <scopeHex> <nonceHex> <stateHex> <challengeMode> <httpMethod> <redirectHex>
+//
+// hex "-" = parameter absent. output: `az <status> <class> tauth= state= | <output of the redeem step>`
+func (e *vf4Env) vf12Az(f []string) (string, error) {
+	st := e.state
+	client := f[1]
+	get := func(h string) (string, bool) {
+		if h == "-" {
+			return "", false
+		}
+		v, ok := vfUnhex(h)
+		return v, ok
+	}
+	form := url.Values{}
+	form.Set("response_type", "code")
+	form.Set("client_id", client)
+	if v, ok := get(f[8]); ok {
+		form.Set("redirect_uri", v)
+	}
+	if v, ok := get(f[2]); ok {
+		form.Set("audience", v)
+	}
+	if v, ok := get(f[3]); ok {
+		form.Set("scope", v)
+	}
+	if v, ok := get(f[4]); ok {
+		form.Set("nonce", v)
+	}
+	if v, ok := get(f[5]); ok {
+		form.Set("state", v)
+	}
+	verifier, prot := "", "-"
+	switch f[6] {
+	case "S256":
+		form.Set("code_challenge", vf12S256(vf12Verifier))
+		form.Set("code_challenge_method", "S256")
+		verifier, prot = vf12Verifier, vfHex("S256")+":"+vfHex(vf12S256(vf12Verifier))
+	case "implicit": // challenge without method: treated as plain
+		form.Set("code_challenge", vf12Verifier)
+		verifier, prot = vf12Verifier, vfHex("")+":"+vfHex(vf12Verifier)
+	case "plain":
+		form.Set("code_challenge", vf12Verifier)
+		form.Set("code_challenge_method", "plain")
+	case "S512":
+		form.Set("code_challenge", vf12Verifier)
+		form.Set("code_challenge_method", "S512")
+	case "methodonly": // a method without challenge is ignored
+		form.Set("code_challenge_method", "S256")
+	}
+	cookie, err := st.genNewSerializedAuthJWT(vf12User, AuthTypePassword, maxAgeSecondsAuthCookie)
+	if err != nil {
+		return "", err
+	}
+	var req *http.Request
+	if f[7] == "POST" {
+		req = httptest.NewRequest("POST", idpOpenIDCAuthorizationPath, strings.NewReader(form.Encode()))
+		req.Header.Set("Content-Type", "application/x-www-form-urlencoded")
+	} else {
+		req = httptest.NewRequest("GET", idpOpenIDCAuthorizationPath+"?"+form.Encode(), nil)
+	}
+	req.AddCookie(&http.Cookie{Name: authCookieName, Value: cookie})
+	tauth := time.Now().Unix()
+	rr, p := vfServe(st.idpOpenIDCAuthorizationHandler, req)
+	if p != nil {
+		return "", fmt.Errorf("authorization handler panicked: %v", p)
+	}
+	if rr.Code != 302 {
+		class := fmt.Sprintf("status%d", rr.Code)
+		for _, m := range vf12AzMessages {
+			if strings.Contains(rr.Body.String(), m.msg) {
+				class = m.class
+				break
+			}
+		}
+		leak := ""
+		if vf4CountJWS(rr.Body.String(), rr.Header().Get("Location")) > 0 {
+			leak = " LEAK"
+		}
+		return fmt.Sprintf("az %d %s tauth=%d%s", rr.Code, class, tauth, leak), nil
+	}
+	loc, err := url.Parse(rr.Header().Get("Location"))
+	if err != nil {
+		return "", err
+	}
+	code := loc.Query().Get("code")
+	payload, ok := vf4Payload(code)
+	if !ok {
+		return "", fmt.Errorf("no code in %q", rr.Header().Get("Location"))
+	}
+	redirect, _ := get(f[8])
+	locBase := loc.Scheme + "://" + loc.Host + loc.Path
+	// redeem with the client's own credentials (secret in the header, or the verifier)
+	secret := vf12Secret(client)
+	place := "header"
+	if secret == "" {
+		place = "form"
+	}
+	out, err := e.vf12Redeem(code, payload, "1", prot, client, secret, verifier, redirect, place)
+	if err != nil {
+		return "", err
+	}
+	return fmt.Sprintf("az 302 code tauth=%d state=%s locbase=%s || %s", tauth, vfHex(loc.Query().Get("state")), vfHex(locBase), out), nil
+}
+
 // TestVerifC12
 //
 //	tok <codeClient> <present> <secret> <verifier> <method> <redirect> <codeState> <place> <via>
@@ -191,10 +381,21 @@ func TestVerifC12(t *testing.T) {
 		{ClientID: vf12S2, ClientSecret: vf12S2Secret, AllowedRedirectDomains: []string{"localhost"}},
 		{ClientID: vf12P1, ClientSecret: "", AllowedRedirectDomains: []string{"localhost"}},
 		{ClientID: vf12P2, ClientSecret: "", AllowedRedirectDomains: []string{"localhost"}},
+		{ClientID: vf12SA, ClientSecret: vf12SASecret, AllowedRedirectDomains: []string{"localhost"}, AllowClientChosenAudiences: true},
+		{ClientID: vf12PA, ClientSecret: "", AllowedRedirectDomains: []string{"localhost"}, AllowClientChosenAudiences: true},
 	}
 	e.setDeployment("single")
 	for _, line := range io.ops {
 		f := strings.Fields(line)
+		if len(f) == 9 && f[0] == "az" {
+			out, err := e.vf12Az(f)
+			if err != nil {
+				io.emit("harness-error %v", err)
+			} else {
+				io.emit("%s", out)
+			}
+			continue
+		}
 		if len(f) != 10 || f[0] != "tok" {
 			io.emit("bad-op")
 			continue
@@ -293,71 +494,10 @@ func TestVerifC12(t *testing.T) {
 		if redirSel == "diff" {
 			redirect = "https://evil.localhost/cb"
 		}
-		form := url.Values{}
-		form.Set("grant_type", "authorization_code")
-		form.Set("redirect_uri", redirect)
-		form.Set("code", code)
-		if verifier != "" {
-			form.Set("code_verifier", verifier)
-		}
-		basic, formID, formSecret := "-", "", ""
-		if place == "form" {
-			formID, formSecret = client, secret
-			if client != "" {
-				form.Set("client_id", client)
-			}
-			if secret != "" {
-				form.Set("client_secret", secret)
-			}
-		}
-		r := httptest.NewRequest("POST", idpOpenIDCTokenPath, strings.NewReader(form.Encode()))
-		r.Header.Set("Content-Type", "application/x-www-form-urlencoded")
-		if place == "header" {
-			r.SetBasicAuth(client, secret)
-			basic = vfHex(client) + ":" + vfHex(secret)
-		}
-		now = time.Now().Unix()
-		rr, p := vfServe(st.idpOpenIDCTokenHandler, r)
-		if p != nil {
-			io.emit("harness-error token handler panicked: %v", p)
+		out, err := e.vf12Redeem(code, payload, by, prot, client, secret, verifier, redirect, place)
+		if err != nil {
+			io.emit("harness-error %v", err)
 			continue
-		}
-		body := rr.Body.String()
-		class := "other"
-		switch {
-		case rr.Code == 200:
-			class = "released"
-		case rr.Code == 400 && strings.Contains(body, "bad code"):
-			class = "badCode"
-		case rr.Code == 400 && strings.Contains(body, "ClientID uknown"):
-			class = "unknownClient"
-		case rr.Code == 400 && strings.Contains(body, "Invalid grant type"):
-			class = "grant"
-		case rr.Code == 400 && strings.Contains(body, "Invalid redirect uri"):
-			class = "noRedirect"
-		case rr.Code == 401 && strings.Contains(body, "Missing client_id"):
-			class = "noClientID"
-		case rr.Code == 401 && strings.Contains(body, "Client Cannot use PKCE"):
-			class = "pkceNotAllowed"
-		case rr.Code == 401:
-			class = "denied"
-		}
-		out := fmt.Sprintf("%d %s | now=%d by=%s prot=%s verifier=%s s256=%s basic=%s formid=%s formsecret=%s redirect=%s wire=%s",
-			rr.Code, class, now, by, prot, vfHex(verifier), vfHex(vf12S256(verifier)), basic, vfHex(formID), vfHex(formSecret),
-			vfHex(redirect), hex.EncodeToString(payload))
-		if rr.Code == 200 {
-			var resp tokenResponse
-			if err := json.Unmarshal(rr.Body.Bytes(), &resp); err != nil {
-				io.emit("harness-error %v", err)
-				continue
-			}
-			idp, _ := vf4Payload(resp.IDToken)
-			acp, _ := vf4Payload(resp.AccessToken)
-			out += fmt.Sprintf(" idt=%s acc=%s jwks=%s ui=%s uiid=%s uicode=%s ttype=%s expin=%d", hex.EncodeToString(idp), hex.EncodeToString(acp),
-				vfBool(e.vf12JWKSVerifies(resp.IDToken, resp.AccessToken)), e.vf12Userinfo(resp.AccessToken),
-				e.vf12Userinfo(resp.IDToken), e.vf12Userinfo(code), vfHex(resp.TokenType), resp.ExpiresIn)
-		} else if vf4CountJWS(body) > 0 {
-			out += " LEAK"
 		}
 		io.emit("%s", out)
 	}
